@@ -172,6 +172,11 @@ def build_extraction():
     """Re-extract model.ml and rebuild ocaml/replay when any model .vo is newer."""
     oc = os.path.join(ROOT, "ocaml")
     replay = os.path.join(oc, "replay")
+    # every model (and what it imports from Gen/) must be up to date, not only the current property's dependencies
+    models = sorted(os.path.relpath(f, COQ)[:-2] + ".vo" for f in glob.glob(os.path.join(COQ, "Model", "*.v")))
+    rc, o = coq_make(models)
+    if rc != 0:
+        return False, "building the Coq models failed:\n" + o[-3000:]
     srcs = glob.glob(os.path.join(COQ, "Model", "*.vo")) + glob.glob(os.path.join(COQ, "Gen", "*.vo")) + \
         glob.glob(os.path.join(COQ, "Base", "*.vo")) + \
         [os.path.join(COQ, "Extract", "Extract.v"), os.path.join(oc, "replay.ml"), os.path.join(oc, "dispatch.ml")]
